@@ -33,22 +33,79 @@ def _reduce(D, q):
 
 
 def _solve(enc, goal, extra, timeout, solvers=("z3",), logic="QF_LIA", models=False,
-           exact=False):
-    """returns verdict, model, seconds, solver"""
+           exact=False, local=False):
+    """returns verdict, model, seconds, solver.  local=True: use only the
+    program-order prefix of constraints that the goal's atoms live in."""
     last = ("unknown", "", 0.0, solvers[0])
     tot = 0.0
+    prefix = enc.prefix_for([goal]) if local else None
+    import os, sys
+    dbg = os.environ.get("VERIF_DEBUG")
     for s in solvers:
         script = enc.script(goal, extra=extra, logic=(None if exact else logic),
-                            models=models, exact_products=exact)
+                            models=models, exact_products=exact, prefix=prefix)
         v, mod, dt = run_solver(script, s, timeout)
         tot += dt
+        if dbg:
+            sys.stderr.write("  [solve %s prefix=%s %.2fs] %s\n" % (v, prefix, dt, goal[:110]))
         if v in ("sat", "unsat"):
             return v, mod, tot, s
         last = (v, mod, tot, s)
     return last
 
 
-def prove_congruence(enc, R, V, q, extra=(), timeout=60, max_lemmas=40, solvers=("z3",)):
+def nullspace_relations(atoms, samples):
+    """integer linear relations  c0 + sum c_j*atom_j = 0  holding on all
+    samples (exact rational elimination).  Returns list of Lin."""
+    from fractions import Fraction
+    cols = ["1"] + list(atoms)
+    rows = [[Fraction(1)] + [Fraction(env[a]) for a in atoms] for env in samples]
+    n = len(cols)
+    # row-reduce sample matrix; nullspace = relations
+    piv_cols = []
+    r = 0
+    M = [row[:] for row in rows]
+    for c in range(n):
+        pr = None
+        for i in range(r, len(M)):
+            if M[i][c] != 0:
+                pr = i
+                break
+        if pr is None:
+            continue
+        M[r], M[pr] = M[pr], M[r]
+        pv = M[r][c]
+        M[r] = [x / pv for x in M[r]]
+        for i in range(len(M)):
+            if i != r and M[i][c] != 0:
+                f = M[i][c]
+                M[i] = [x - f * y for x, y in zip(M[i], M[r])]
+        piv_cols.append(c)
+        r += 1
+        if r == len(M):
+            break
+    free = [c for c in range(n) if c not in piv_cols]
+    rels = []
+    for fc in free:
+        vec = [Fraction(0)] * n
+        vec[fc] = Fraction(1)
+        for i, pc in enumerate(piv_cols):
+            vec[pc] = -M[i][fc]
+        den = 1
+        for x in vec:
+            den = den * x.denominator // math.gcd(den, x.denominator)
+        iv = [int(x * den) for x in vec]
+        g = 0
+        for x in iv:
+            g = math.gcd(g, abs(x))
+        if g > 1:
+            iv = [x // g for x in iv]
+        rels.append(Lin(iv[0], {a: k for a, k in zip(atoms, iv[1:]) if k}))
+    return rels
+
+
+def prove_congruence(enc, R, V, q, extra=(), timeout=60, max_lemmas=60, solvers=("z3",),
+                     samples=None):
     """Show R == V (mod q) under enc's constraints (+extra SMT assertions).
     Finds k with R = V + q*k as an integer form over the encoder's atoms,
     proving auxiliary 'this form is zero' lemmas with the solver as needed."""
@@ -82,6 +139,44 @@ def prove_congruence(enc, R, V, q, extra=(), timeout=60, max_lemmas=40, solvers=
             # constant residual not divisible by q: cannot be congruent
             break
         progress = False
+        # (s) candidates discovered by concrete simulation, proved by the solver
+        if samples:
+            if rounds == 0:
+                # split remainders that are always zero (e.g. Montgomery's discarded low words)
+                for key_, sp in list(enc.splits.items()):
+                    low = sp[0]
+                    if low.is_const() or len(low.m) < 2:
+                        continue
+                    if all(low.eval(env) == 0 for env in samples):
+                        kk = ("zero", low.key())
+                        if kk in tried:
+                            continue
+                        tried.add(kk)
+                        v, _, dt, s_ = _solve(enc, "(not (= %s 0))" % low.smt(), extra, min(timeout, 20), solvers, local=True)
+                        nq += 1
+                        if v == "unsat":
+                            zero_forms.append(low)
+                            extra.append("(= %s 0)" % low.smt())
+                            lemma_txt.append("split remainder %s... = 0" % low.smt()[:60])
+                            progress = True
+                if progress:
+                    continue
+            ratoms = sorted(cur.m)
+            if len(ratoms) <= 48 and len(samples) > len(ratoms) + 2:
+                for E in nullspace_relations(ratoms, samples):
+                    kk = ("rel", E.key())
+                    if kk in tried or not E.m:
+                        continue
+                    tried.add(kk)
+                    v, _, dt, s_ = _solve(enc, "(not (= %s 0))" % E.smt(), extra, min(timeout, 20), solvers, local=True)
+                    nq += 1
+                    if v == "unsat":
+                        zero_forms.append(E)
+                        extra.append("(= %s 0)" % E.smt())
+                        lemma_txt.append("%s = 0" % E.smt()[:80])
+                        progress = True
+                if progress:
+                    continue
         # (a) single atoms with small range that are constant
         cands = sorted(cur.m, key=lambda a: enc.atoms[a][1])
         for a in cands:
@@ -93,7 +188,7 @@ def prove_congruence(enc, R, V, q, extra=(), timeout=60, max_lemmas=40, solvers=
                 if key in tried or not (lo <= val <= hi):
                     continue
                 tried.add(key)
-                v, _, dt, s = _solve(enc, "(not (= %s %d))" % (a, val), extra, timeout, solvers)
+                v, _, dt, s = _solve(enc, "(not (= %s %d))" % (a, val), extra, min(timeout, 20), solvers, local=True)
                 nq += 1
                 if v == "unsat":
                     zf = Lin(-val, {a: 1})
@@ -116,7 +211,7 @@ def prove_congruence(enc, R, V, q, extra=(), timeout=60, max_lemmas=40, solvers=
             key = ("res", E.key())
             if key not in tried:
                 tried.add(key)
-                v, _, dt, s = _solve(enc, "(not (= %s 0))" % E.smt(), extra, timeout, solvers)
+                v, _, dt, s = _solve(enc, "(not (= %s 0))" % E.smt(), extra, min(timeout, 20), solvers, local=True)
                 nq += 1
                 if v == "unsat":
                     zero_forms.append(E)
